@@ -145,8 +145,7 @@ func lastLines(s string, n int) string {
 }
 
 // predicting: the known findings to which generated programs are attributed by prediction.
-var predicting = map[string]bool{"select-send-cases-share-value-register": true, "range-chan-declared-var-int-register": true,
-	"select-comm-decl-shares-select-scope": true, "break-in-select-clause-never-lands": true, "labelled-break-out-of-for-select-ignores-label": true}
+var predicting = map[string]bool{"select-comm-decl-shares-select-scope": true, "labelled-break-out-of-for-select-ignores-label": true}
 
 // hangLimit: how long a program that is predicted never to end is given.
 const hangLimit = 700 * time.Millisecond
@@ -204,6 +203,11 @@ func runC14(c *hx.Ctx) error {
 			progs = append(progs, genProgram(c.R))
 		}
 	}
+	// the minimal programs of the repaired defects: ordinary programs, in every run
+	for _, k := range repairedC14 {
+		progs = append(progs, &program{N: 4, M: 2, raw: k.raw, shapes: []string{k.shape, "repaired:" + k.id}})
+	}
+	n = len(progs)
 	// the known defects ride in the same gc batch
 	for _, k := range knownC14 {
 		progs = append(progs, &program{N: 4, M: 2, raw: k.raw, shapes: []string{"known:" + k.id}})
@@ -243,9 +247,6 @@ func runC14(c *hx.Ctx) error {
 	}
 	delete(activeKnown, "")
 	progs, want = progs[:n], want[:n]
-	for i, p := range progs {
-		p.resolve(want[i])
-	}
 
 	// the Lean evaluators: source level and VM level (main at a non-zero frame pointer), one (quick) or two (thorough) random schedules each
 	var lines []string
@@ -374,10 +375,6 @@ func runC14(c *hx.Ctx) error {
 		for rep := 0; rep < c.N(4, 8); rep++ {
 			procs := []int{1, 2, 4, 8}[(rep+i)%4]
 			mode := ctxModes[(rep+i/4)%4]
-			if p.doneOff && ctxDone(mode) {
-				mode = ctxModes[rep%2]
-				res.Hist("ctx-mode-with-done-skipped")
-			}
 			limit := 20 * time.Second
 			if stoppable {
 				// a break in a select clause: if it goes wrong the run never ends and spins —
@@ -422,9 +419,6 @@ func runC14(c *hx.Ctx) error {
 					}
 					// a step is taken only if the smaller program fails and no known defect explains
 					// that (the original is explained by none)
-					if qp := q.predictSharedSend(); qp != nil && activeKnown[qp.id] {
-						return false
-					}
 					_, f := failsAs(qa, q.expected())
 					return f
 				})
